@@ -115,6 +115,21 @@ def check(run):
             if 'time_since_epoch' not in t and 'now' not in t:
                 continue
             txts.append(t)
+            # exact integer arithmetic only: a floating-point intermediate cannot represent every microsecond instant
+            seen_d, todo_ = set(), [n['e']]
+            while todo_:
+                e_ = todo_.pop()
+                for x_ in walk(e_):
+                    try:
+                        tx = g.ty(x_) if 't' in x_ else ''
+                    except Exception:
+                        tx = ''
+                    if tx in ('double', 'float', 'long double', 'const double', 'const float') or 'duration<double' in tx or 'duration<float' in tx:
+                        ok_ts = False
+                        why = 'the timestamp is split through a floating-point value (%s): many whole-microsecond instants are not representable, so records are stamped a microsecond early' % tx
+                    if x_['k'] == 'ref' and x_.get('dk') == 'local' and x_.get('did') not in seen_d:
+                        seen_d.add(x_['did'])
+                        todo_.extend(d_ for _s, d_ in q.local_defs(g, x_['did']))
             full_us = ('micro' in _dc_type(g, n['e']) or 'ratio<1, 1000000>' in _dc_type(g, n['e']) or 'ratio<1, 1000000000>' in _dc_type(g, n['e'])) and ('- ' not in t and 'secs' not in t)
             if full_us:
                 ok_ts = False
